@@ -1,6 +1,6 @@
 (* C11 -- Macro invocation equals substitution (table algebra full, substitution partial).  Property theorems only. *)
 From Rimu Require Import Base Unicode Regex RegexAnalysis RegexParse Str Types Tables Guards State Inline Block
-  Frame FrameBlock FrameInst OptionsLemmas MiscLemmas MoreLemmas Plain TableFacts MatchExact MacroSubst MacroDefine.
+  Frame FrameBlock FrameInst OptionsLemmas MiscLemmas MoreLemmas Plain TableFacts PlainDoc MatchExact MacroSubst MacroDefine MacroDoc.
 
 (* setValue, when not skipped by the safe mode, is exactly the table function setValue_table and touches nothing protected *)
 Theorem C11_setValue_spec : forall name value s,
@@ -148,3 +148,45 @@ Example C11_ex_definition_document :
   match api_render 40 ($"{who}='the world'" ++ [10; 10] ++ $"Hello {who}.") (mkOpts PyNone PyNone PyNone true) S0 with
   | Ok (html, _) => str_eqb html $"<p>Hello the world.</p>" | _ => false end = true.
 Proof. vm_compute. reflexivity. Qed.
+
+(* A PARAGRAPH THAT INVOKES A DEFINED MACRO, end to end: the one-line document pre{name}post (texts over the safe alphabet,
+   name alphanumeric) renders to the paragraph of pre value post, session unchanged -- reader, block dispatch (no block pattern
+   matches the line), paragraph block, macro expansion, spans *)
+Theorem C11_invocation_document : forall n s c pre name post value,
+  quiet_default s -> In c safe_first -> over safe_alphabet (c :: pre) -> over safe_alphabet post -> over safe_alphabet value ->
+  inv_name_ok name -> getValue (ienv_of s) name = Some value ->
+  doc_render (S (S (S (S (S (S n)))))) ((c :: pre) ++ 123 :: name ++ 125 :: post) s =
+  Ok ($"<p>" ++ escape ((c :: pre) ++ value ++ post) ++ $"</p>", s).
+Proof. exact invocation_document. Qed.
+Print Assumptions C11_invocation_document.
+
+(* DEFINITION, BLANK LINE, INVOCATION: the three-line document renders to the paragraph with the value substituted, and the
+   session afterwards is the one setValue produced; through rimu.render for any options that leave definitions enabled *)
+Theorem C11_define_invoke_document : forall n s c pre name post value,
+  quiet_default s -> setValue_skip (s_mode s) = false -> name <> $"--" ->
+  In c safe_first -> over safe_alphabet (c :: pre) -> over safe_alphabet post -> over safe_alphabet value -> inv_name_ok name ->
+  exists s', macros_setValue name value s = Ok (tt, s') /\
+    doc_render (S (S (S (S (S (S (S n))))))) (def_line name value ++ 10 :: 10 :: inv_para c pre name post) s =
+    Ok ($"<p>" ++ escape ((c :: pre) ++ value ++ post) ++ $"</p>", s').
+Proof. exact define_invoke_document. Qed.
+Print Assumptions C11_define_invoke_document.
+
+Theorem C11_define_invoke_api : forall n o s s1 c pre name post value,
+  updateFrom o (if (s_mode s =? -1)%Z then document_init s else s) = Ok (tt, s1) ->
+  quiet_default s1 -> setValue_skip (s_mode s1) = false -> name <> $"--" ->
+  In c safe_first -> over safe_alphabet (c :: pre) -> over safe_alphabet post -> over safe_alphabet value -> inv_name_ok name ->
+  exists s', macros_setValue name value s1 = Ok (tt, s') /\
+    api_render (S (S (S (S (S (S (S n))))))) (def_line name value ++ 10 :: 10 :: inv_para c pre name post) o s =
+    Ok ($"<p>" ++ escape ((c :: pre) ++ value ++ post) ++ $"</p>", s').
+Proof. exact define_invoke_api. Qed.
+Print Assumptions C11_define_invoke_api.
+
+Example C11_ex_invoke_hypotheses :
+  In 72 safe_first /\ over safe_alphabet $"Hello " /\ over safe_alphabet $"!" /\ over safe_alphabet $"the world" /\ inv_name_ok $"who" /\
+  def_line $"who" $"the world" ++ 10 :: 10 :: inv_para 72 $"ello " $"who" $"!" = $"{who}='the world'" ++ [10; 10] ++ $"Hello {who}!".
+Proof.
+  assert (O : forall A t, forallb (fun c => existsb (N.eqb c) A) t = true -> over A t).
+  { intros A t H x Hx. rewrite forallb_forall in H. apply H in Hx. apply existsb_exists in Hx as (y & Hy & E). apply N.eqb_eq in E. subst y. exact Hy. }
+  split; [vm_compute; intuition|]. split; [apply O; vm_compute; reflexivity|]. split; [apply O; vm_compute; reflexivity|].
+  split; [apply O; vm_compute; reflexivity|]. split; [split; [discriminate|apply O; vm_compute; reflexivity]|]. vm_compute. reflexivity.
+Qed.
